@@ -45,6 +45,13 @@ func (fr *Frame) call(cc *ssa.CallCommon, instr ssa.Value, rt types.Type) *Value
 				}
 			}
 		}
+		// a value of a named function type with a (trusted) contract: key "(TypeName).call"
+		if n, ok := cc.Value.Type().(*types.Named); ok && n.Obj().Pkg() != nil {
+			if fc, ok := x.eng.contracts[n.Obj().Pkg().Path()+"::("+n.Obj().Name()+").call"]; ok {
+				fr.safety("nil", Neq(fr.val(cc.Value).C[0], IntLit(0)), "nil-func-call")
+				return fr.applyContractSig(fc, nil, cc.Signature(), args, rt, false)
+			}
+		}
 		return fr.havocCall("dynamic call", cc.Signature(), args, rt, false)
 	}
 	return x.callFunction(fr, callee, args, bindings, rt)
